@@ -419,6 +419,7 @@ macro_rules! c10_valvec {
 c10_valvec!(c10_valvec32_u8_pushpop_getset_ops3, quick, 10, u8, 3, 0x0f);
 c10_valvec!(c10_valvec32_tracked_pushpop_clear_ops3, quick, 10, Tracked, 3, 0x13);
 c10_valvec!(c10_valvec32_tracked_push_set_ops3, quick, 10, Tracked, 3, 0x09);
+c10_valvec!(c10_valvec32_tracked_push_clone_ops3, quick, 10, Tracked, 3, 0x41);
 c10_valvec!(c10_valvec32_tracked_extend_clone_reserve_ops3, thorough, 10, Tracked, 3, 0xe1);
 c10_valvec!(c10_valvec32_u8_all_ops4, thorough, 10, u8, 4, 0xff);
 c10_valvec!(c10_valvec32_tracked_all_ops4, thorough, 10, Tracked, 4, 0xff);
